@@ -82,6 +82,7 @@ type Ctx struct {
 	ruleHits  map[string]int
 	lemma     bool
 	stableNames bool
+	nzDone    map[string]bool
 }
 
 func (c *Ctx) drop(what string) { c.dropped[what]++ }
